@@ -27,6 +27,9 @@ CLAIMED = {
     'C05': ('5-C05', 'Consumer and producer decision tables of the statement are checked for every validator verdict, every '
             'latency/arrival/lifetime relation (solver-decided) and every single-byte corruption of the parameters digest '
             '(symbolic position and value through the ideal hash). Bounded.'),
+    'C06': ('5-C06', 'The real StreamFace.run loop and both receive callbacks are executed on fully symbolic byte strings and on '
+            'every single-byte / truncation mutation of valid packets, in four application states; framing is compared with a '
+            'reference splitter for every chunking. The solver decides, path by path, that no exception class escapes. Bounded.'),
 }
 NOT_YET = 'check not built yet in this revision of /verif (planned in DESIGN.md section 5)'
 NA = {
